@@ -6,6 +6,7 @@ import (
 	"os"
 
 	channelstore "github.com/WuKongIM/WuKongIM/pkg/channel/store"
+	"github.com/WuKongIM/WuKongIM/pkg/wklog"
 )
 
 var bg = context.Background()
@@ -28,7 +29,7 @@ func (r *runner) newFactory(kind string) channelstore.Factory {
 		if err != nil {
 			panic(err)
 		}
-		f := channelstore.NewMessageDBFactory(dir)
+		f := channelstore.NewMessageDBFactoryWithOptions(dir, channelstore.MessageDBFactoryOptions{Logger: wklog.NewNop()})
 		r.closers = append(r.closers, func() {
 			_ = f.Close()
 			_ = os.RemoveAll(dir)
